@@ -6,6 +6,8 @@ package starlark
 // the real constructors (both representations), result canonical.
 //
 //verif:unwind 40
+//verif:config generic posix64 posix64-nommap
+//verif:configq generic posix64
 func zzH10_addsub() {
 	B := zzParam("bits", 66, 70)
 	x, xv := zzSymInt("x", B)
@@ -22,6 +24,8 @@ func zzH10_addsub() {
 }
 
 //verif:unwind 40
+//verif:config generic posix64 posix64-nommap
+//verif:configq generic posix64
 func zzH10_cmpsign() {
 	B := zzParam("bits", 66, 70)
 	x, xv := zzSymInt("x", B)
